@@ -25,7 +25,7 @@ def main():
             sys.stderr.write("cannot read replay file %s: %s\n" % (a.replay, e))
             sys.exit(2)
     os.environ["VERIF_TIER"] = tier
-    os.environ.setdefault("VERIF_PMAP_TIMEOUT", "300" if tier == "quick" else "7200")
+    os.environ.setdefault("VERIF_PMAP_TIMEOUT", "900" if tier == "quick" else "7200")
     from harness import build
     pkg = build.ensure_build(guard=False)
     sys.path.insert(0, pkg)
